@@ -2416,9 +2416,10 @@ impl Fs {
     /// List entries in a directory.
     /// Returns paths of files, directories, and symlinks that are direct children of the given path.
     pub(crate) fn dir_entries(&self, path: &Path) -> Vec<PathBuf> {
-        use std::collections::HashSet;
-
-        let mut entries: HashSet<PathBuf> = HashSet::new();
+        // Insertion-ordered: the listing order is observable through
+        // `read_dir`, and a std `HashSet` is re-keyed per instance, which made
+        // two runs of the same seeded simulation list a directory differently.
+        let mut entries: IndexSet<PathBuf> = IndexSet::new();
 
         // Add persisted files in this directory
         for file_path in self.persisted_files.keys() {
